@@ -6,9 +6,14 @@
     persist / close / Delete), getter answers ([FResp]: ANY slice — any subset served, nothing, nil, shorter, longer — with
     any error class), context aborts of waiting calls ([FAbort]), and [FCrash] / [FRestart] (fresh instance over the same
     durable datastore, without / with Close) — in ANY interleaving. [frun cf (init count) es] is the state after [es].
+    The datastore the result is persisted in can FAIL, as further events: [FLoadFail] (the Get of the previous result returns
+    an error other than ErrNotFound: I/O error, or a context-aware datastore seeing a cancelled / expired context),
+    [FStoreFail] (the eager persist of a fresh draw fails) and [FRespFail] (the getter answers, then the persist of the new
+    result fails), the stores at each point where autobatch Put/Flush can fail ([sfail]); each makes the call return that error.
     The random source is an input (the byte stream read by crypto/rand.Int and the iteration order of the Go map).
-    [cf] is the code variant: [repaired cf] = branches fix-c03-1 (draw persisted before the first request) and fix-c03-2
-    (every write flushed), which the model follows; soundness holds for every variant. *)
+    [cf] is the code variant: [repaired cf] = branches fix-c03-1 (draw persisted before the first request), fix-c03-2
+    (every write flushed) and fix-c03-3 (a failed write is dropped from the write buffer), which the model follows;
+    soundness holds for every variant. *)
 From Coq Require Import List ZArith NArith Permutation.
 From CN Require Import Light.Map Light.Sampling Light.DrawProofs Light.SamplingProofs Light.SessionProofs.
 Import ListNotations.
@@ -59,11 +64,12 @@ Proof. exact avail_sound. Qed.
 Print Assumptions C03_avail_sound.
 
 (** what the log means: every entry (root, coordinate, verified) is a non-empty slot, at the position of that coordinate
-    in the request, of an answer the getter gave to a call for that root. *)
+    in the request, of an answer the getter gave to a call for that root ([resp_of e]: the answer carried by an [FResp] or,
+    when the persist after it failed, an [FRespFail] event). *)
 Theorem C03_served_genuine : forall cf count es r c b,
   In (r, c, b) (s_served (frun cf (init count) es)) ->
-  exists es1 t resp es2 h ch res i,
-    es = es1 ++ FResp t resp :: es2 /\
+  exists es1 e t resp es2 h ch res i,
+    es = es1 ++ e :: es2 /\ resp_of e = Some (t, resp) /\
     mget t (s_thr (frun cf (init count) es1)) = Some (h, TReq ch res) /\ hr h = r /\
     nth_error (r_rem res) i = Some c /\ nth_error (rs_slots resp) i = Some (SFull b).
 Proof. exact served_genuine_init. Qed.
@@ -96,7 +102,7 @@ Proof. exact requests_are_pending. Qed.
 Print Assumptions C03_requests_are_pending.
 
 (** pending_step (repaired code) — one step of anybody: a persisted result stays as it is (failed, empty, nil, cancelled,
-    over-long answers; other calls; other roots; crash; restart) unless the step is an answer to a request for exactly its
+    over-long answers; failed loads; failed stores; other calls; other roots; crash; restart) unless the step is an answer to a request for exactly its
     remaining coordinates, and then it becomes [answered]: coordinates at non-empty positions move to available, the
     others stay pending. *)
 Theorem C03_pending_step : forall wf hf cf count es e r res,
@@ -104,7 +110,7 @@ Theorem C03_pending_step : forall wf hf cf count es e r res,
   let s := frun cf (init count) es in
   view s r = Some res ->
   view (fstep cf s e) r = Some res \/
-  exists t resp h c, e = FResp t resp /\ mget t (s_thr s) = Some (h, TReq c res) /\ hr h = r /\
+  exists t resp h c, resp_of e = Some (t, resp) /\ mget t (s_thr s) = Some (h, TReq c res) /\ hr h = r /\
                      rs_slots resp <> [] /\ (length (rs_slots resp) <= length (r_rem res))%nat /\
                      view (fstep cf s e) r = Some (answered res (rs_slots resp)).
 Proof. exact pending_step_run. Qed.
@@ -134,6 +140,70 @@ Theorem C03_pending_stable : forall wf hf cf count es1 es2 r res0,
                Permutation (r_avail res ++ r_rem res) (r_avail res0 ++ r_rem res0)).
 Proof. exact pending_stable. Qed.
 Print Assumptions C03_pending_stable.
+
+(** * datastore faults *)
+
+(** load_fault_inert (any code variant) — the Get of the previous result fails (any error class): the call goes to its
+    return with that error, never "available", and nothing else changes: not the durable datastore, not the write buffer,
+    not the served log, not the sessions, no other call; nothing is drawn. (When the result sits in the write buffer,
+    autobatch answers without touching the datastore: no failure is possible and the event is void.) *)
+Theorem C03_load_fault_inert : forall cf s t e,
+  let s' := fstep cf s (FLoadFail t e) in
+  s_disk s' = s_disk s /\ s_buf s' = s_buf s /\ s_served s' = s_served s /\ s_sess s' = s_sess s /\
+  s_closed s' = s_closed s /\ s_count s' = s_count s /\
+  (forall t', t' <> t -> mget t' (s_thr s') = mget t' (s_thr s)) /\
+  (mget t (s_thr s') = mget t (s_thr s) \/
+   exists h c, mget t (s_thr s) = Some (h, TLoad c) /\ buffered s (hr h) = false /\
+               mget t (s_thr s') = Some (h, TRel c (fault_verdict e)) /\ fault_verdict e <> VOk).
+Proof. exact load_fault_inert. Qed.
+Print Assumptions C03_load_fault_inert.
+
+(** store_fault_safe (repaired code) — a failed store anywhere in any history, for every root: a persisted result stays
+    exactly as it is or becomes [answered] by the failing call's own answer to a request for exactly its remaining
+    coordinates (only when just the second flush failed; C03_answer_positional: a coordinate changes side only through a
+    non-empty slot at its position) — a failed store never turns a pending coordinate into a sampled one and never changes
+    the set; a root without a result gets none, or exactly the draw the failing call was about to persist. *)
+Theorem C03_store_fault_safe : forall wf hf cf count es e r,
+  repaired cf -> Forall (ev_chain wf hf) (es ++ [e]) -> is_store_fault e ->
+  let s := frun cf (init count) es in
+  match view s r with
+  | Some res =>
+    view (fstep cf s e) r = Some res \/
+    exists t resp h c, resp_of e = Some (t, resp) /\ mget t (s_thr s) = Some (h, TReq c res) /\ hr h = r /\
+                       rs_slots resp <> [] /\ (length (rs_slots resp) <= length (r_rem res))%nat /\
+                       view (fstep cf s e) r = Some (answered res (rs_slots resp))
+  | None =>
+    view (fstep cf s e) r = None \/
+    exists t o e0 h c res, e = FStoreFail t o e0 /\ mget t (s_thr s) = Some (h, TStore c res) /\ hr h = r /\
+                           view (fstep cf s e) r = Some res
+  end.
+Proof. exact store_fault_safe. Qed.
+Print Assumptions C03_store_fault_safe.
+
+(** the call that hit the failing store returns an error (any code variant) *)
+Theorem C03_store_fault_verdict : forall cf s e t h c v,
+  is_store_fault e -> mget t (s_thr (fstep cf s e)) = Some (h, TRel c v) -> mget t (s_thr s) <> Some (h, TRel c v) -> v <> VOk.
+Proof. exact store_fault_verdict. Qed.
+Print Assumptions C03_store_fault_verdict.
+
+(** rerequest_exactly_pending (repaired code) — a result [res0] for root [r] is persisted (true from the first draw on);
+    ANY history follows: failed loads, failed stores, failed / partial / cancelled answers, concurrent calls, crash,
+    restart. Whenever a call for [r] is then inside the getter, what it asked for is durable and is part of [res0]'s pending
+    coordinates; and — the getter keeping its contract — available ∪ remaining is the same set, and every pending coordinate
+    of [res0] that is NOT asked for again is recorded as sampled and was handed back non-empty by the getter for this root. *)
+Theorem C03_rerequest_exactly_pending : forall wf hf cf count es1 es2 r res0 t h c res,
+  repaired cf -> 0 <= count -> Forall (ev_chain wf hf) (es1 ++ es2) ->
+  view (frun cf (init count) es1) r = Some res0 ->
+  let s := frun cf (init count) (es1 ++ es2) in
+  mget t (s_thr s) = Some (h, TReq c res) -> hr h = r ->
+  mget r (s_disk s) = Some res /\
+  (incl (r_rem res) (r_rem res0) /\ incl (r_avail res0) (r_avail res) /\
+   forall x, In x (r_avail res) -> In x (r_avail res0) \/ In x (r_rem res0)) /\
+  (contract_run cf (frun cf (init count) es1) es2 ->
+   Permutation (r_avail res ++ r_rem res) (r_avail res0 ++ r_rem res0) /\
+   forall x, In x (r_rem res0) -> In x (r_rem res) \/ (In x (r_avail res) /\ exists b, In (r, x, b) (s_served s))).
+Proof. exact rerequest_exactly_pending. Qed.
+Print Assumptions C03_rerequest_exactly_pending.
 
 (** * non-vacuity: concrete histories meeting the hypotheses *)
 Theorem C03_draw_nonvacuous :
@@ -165,6 +235,22 @@ Theorem C03_pending_stable_nonvacuous :
   Forall (ev_chain (fun _ => 8) (fun _ => 7%N)) (es1 ++ es2) /\ contract_run fixed_cfg (frun fixed_cfg (init 4) es1) es2.
 Proof. exact pending_stable_nonvacuous. Qed.
 
+(** datastore faults on the repaired code: partial answer; a retry whose load fails with a cancelled context (returns
+    context.Canceled, result untouched); a retry that is served everything but whose persist fails with an I/O error
+    (returns the error, nothing recorded as sampled); crash; the next call asks for exactly the two pending coordinates *)
+Theorem C03_pending_stable_faults_nonvacuous :
+  let res0 := mkres [(1, 2); (5, 6)] [(3, 4); (7, 0)] in
+  view (frun fixed_cfg (init 4) es_faults1) 1%N = Some res0 /\
+  mget 2%N (s_thr (frun fixed_cfg (init 4) (es_faults1 ++ firstn 6 es_faults2))) = Some (hx, TDone VCanceled) /\
+  mget 3%N (s_thr (frun fixed_cfg (init 4) (es_faults1 ++ firstn 13 es_faults2))) = Some (hx, TDone VErr) /\
+  view (frun fixed_cfg (init 4) (es_faults1 ++ firstn 13 es_faults2)) 1%N = Some res0 /\
+  mget 4%N (s_thr (frun fixed_cfg (init 4) (es_faults1 ++ es_faults2))) = Some (hx, TReq 3%N res0) /\
+  repaired fixed_cfg /\
+  Forall (ev_chain (fun _ => 8) (fun _ => 7%N)) (es_faults1 ++ es_faults2) /\
+  contract_run fixed_cfg (frun fixed_cfg (init 4) es_faults1) es_faults2 /\
+  is_store_fault (nth 10 es_faults2 (FCrash 0)).
+Proof. exact pending_stable_faults_nonvacuous. Qed.
+
 (** * the limits of the statements *)
 
 (** the contract hypothesis of avail_sound is necessary: a shorter all-non-empty slice makes the call succeed with 2 of 4
@@ -176,7 +262,20 @@ Theorem C03_avail_sound_needs_contract :
   view (fstep fixed_cfg s e) 1%N = Some (mkres [(1, 2); (3, 4)] []) /\ ~ answer_in_contract s e.
 Proof. exact avail_sound_needs_contract. Qed.
 
-(** what the two repairs repaired — the code before them ([orig_cfg]: no write before the first answer, writes only
+(** what fix-c03-3 repaired — before it ([keepbuf_cfg]) a failed write stayed in the autobatch write buffer: the eager
+    persist of the first draw fails before the buffer is emptied (the datastore's Batch() returns an I/O error) and the call
+    returns the error; the retry finds the draw in the buffer and asks the getter for it although it is NOT durable
+    (C03_requests_are_pending fails); the getter hands back nothing; the process dies without Close; the next call draws
+    and requests a different set (C03_pending_stable / C03_rerequest_exactly_pending fail). *)
+Theorem C03_pending_stable_keepbuf_refuted :
+  exists es1 es2 h c1 c2 res1 res2,
+    mget 2%N (s_thr (frun keepbuf_cfg (init 2) es1)) = Some (h, TReq c1 res1) /\
+    mget (hr h) (s_disk (frun keepbuf_cfg (init 2) es1)) = None /\
+    mget 3%N (s_thr (frun keepbuf_cfg (init 2) (es1 ++ es2))) = Some (h, TReq c2 res2) /\
+    s_served (frun keepbuf_cfg (init 2) (es1 ++ es2)) = [] /\ r_rem res1 <> r_rem res2.
+Proof. exact pending_stable_keepbuf_refuted. Qed.
+
+(** what the first two repairs repaired — the code before them ([orig_cfg]: no write before the first answer, writes only
     buffered) does NOT keep pending coordinates: (1) partial answer, crash without Close: the result is gone; *)
 Theorem C03_pending_stable_original_crash_refuted :
   exists es1 es2 res0,
